@@ -411,6 +411,14 @@ mod bbs_plus_impl {
 
       // Obtain the corresponding private key.
       let jwk: &Jwk = jwk_store.get(key_id).ok_or(KeyStorageErrorKind::KeyNotFound)?;
+      // The key was generated for one ciphersuite: a signature made with the other one (named by the caller's JWK)
+      // would not verify under the key's own public JWK.
+      if jwk.alg().is_some() && jwk.alg() != public_key.alg() {
+        return Err(
+          KeyStorageError::new(KeyStorageErrorKind::KeyAlgorithmMismatch)
+            .with_custom_message("the `alg` of the given public key differs from the `alg` of the stored key"),
+        );
+      }
       let (sk, pk) = expand_bls_jwk(jwk)?;
 
       sign_bbs(alg, data, &sk.expect("jwk is private"), &pk, header)
